@@ -173,6 +173,26 @@ pub fn drive(t: &mut Tracer, tier: &str, seed: u64) {
         let ks = gm_sm9::u256::u256_from_be_bytes(&[5u8; 32]);
         let smk = gm_sm9::key::Sm9SignMasterKey { ks, ppubs: gm_sm9::points::TwistPoint::g_mul(&ks) };
         { let m = smk; call(t, &mut n, "sm9.verify_s_infinity", "degenerate", 0, move || { let _ = m.verify_sign(b"signer", b"msg", &[7, 0, 0, 0], &gm_sm9::points::Point::zero()); Ok::<(), String>(()) }); }
+        // points whose PUBLIC limb fields hold unreduced values (the structs are plain data: Z = p is zero modulo p without being the all-zero limbs, x = p, y = 2^256 - 1 ...):
+        // as the signature point S and as a received R
+        {
+            let pl = gm_sm9::u256::u256_from_be_bytes(&hex::decode("b640000002a3a6f1d603ab4ff58ec74521f2934b1a7aeedbe56f9b27e351457d").unwrap());
+            let base = gm_sm9::points::Point::g_mul(&[11, 0, 0, 0]);
+            let ff = [u64::MAX; 4];
+            let mut cands = vec![];
+            for (i, v) in [pl, ff, [1, 0, 0, 0]].iter().enumerate() {
+                let mut a = base; a.z = *v; cands.push((a, i));
+                let mut b = base; b.x = *v; cands.push((b, 3 + i));
+                let mut c2 = base; c2.y = *v; cands.push((c2, 6 + i));
+            }
+            let ke = gm_sm9::u256::u256_from_be_bytes(&[3u8; 32]);
+            let msk = gm_sm9::key::Sm9EncMasterKey { ke, ppube: gm_sm9::points::Point::g_mul(&ke) };
+            let kb = msk.extract_exch_key(b"bob");
+            for (pt, i) in cands {
+                { let (m, q) = (smk, pt); call(t, &mut n, "sm9.verify_s_unreduced", "degenerate", i, move || { let _ = m.verify_sign(b"signer", b"msg", &[7, 0, 0, 0], &q); Ok::<(), String>(()) }); }
+                if let Some(k) = kb { let (m, q) = (msk, pt); call(t, &mut n, "sm9.kx1b_r_unreduced", "degenerate", i, move || { let _ = gm_sm9::key::exch_step_1b(&m, b"alice", b"bob", &k, &q, 16); Ok::<(), String>(()) }); }
+            }
+        }
         // SM2: verification / decryption / key agreement never see an infinity through bytes; the public key object cannot hold it (constructor refuses)
     }
     // --- truncations and single-byte corruptions of valid encodings ---
